@@ -6,7 +6,7 @@ message count, UIDNEXT and content) before and after the step.
 
   judge-c17-wire <maxMailboxes> <maxMessages> <maxUID> <op …> | <world before> => <status> | <world after>
 
-  op      append <mbox> | copy <src> <lo> <hi> <dst> | move <src> <lo> <hi> <dst> | create <name> | kcreate <name>
+  op      append <mbox> | copy <src> <lo> <hi> <dst> | move <src> <lo> <hi> <dst> | create <name> | kcreate <name> | rename <old> <new>
           | batch <mbox> <n> | batch2 <mbox1> <n1> <mbox2> <n2> | race <mbox> | aux <text>
           | flush <status of the command> (the connector's queued echo of the command is applied;
             `ok+diverged`: accepted, but a COPY / MOVE was refused earlier in the history — gluon had told
@@ -105,6 +105,7 @@ inductive Op where
   | move (src : String) (lo hi : Nat) (dst : String)
   | create (name : String)
   | kcreate (name : String)
+  | rename (old new : String)
   | batch (mb : String) (n : Nat)
   | batch2 (mb1 : String) (n1 : Nat) (mb2 : String) (n2 : Nat)
   | race (mb : String)
@@ -117,6 +118,7 @@ def parseOp : List String → Option Op
   | ["move", s, lo, hi, d] => do some (.move s (← lo.toNat?) (← hi.toNat?) d)
   | ["create", n] => some (.create n)
   | ["kcreate", n] => some (.kcreate n)
+  | ["rename", o, n] => some (.rename o n)
   | ["batch", m, n] => n.toNat?.map fun k => .batch m k
   | ["batch2", m1, n1, m2, n2] => do some (.batch2 m1 (← n1.toNat?) m2 (← n2.toNat?))
   | ["race", m] => some (.race m)
@@ -235,6 +237,7 @@ def predict (l : IMAP) (w : WorldObs) : Op → Option Pred
       let w0 := toWorld w m
       let w1 := runEvs l [.check 0 1, .check 1 1, .insert 0, .insert 1] w0
       if w1.count == w0.count then none else some { mailboxes := w.length, changed := [{ name := mb, count := w1.count, uidNext := w1.uidNext }] }
+  | .rename .. => none     -- judged by `judgeRename` (names change: `Pred` cannot say that)
   | .flush _ => none
   | .aux => none
 
@@ -294,6 +297,8 @@ def excessCause (op : Op) (before : WorldObs) (what : String) : String :=
   | .create name => if ((superiors name).filter fun s => (find before s).isNone).length > 0 then "create-parents-above-maximum" else "limit-exceeded"
   | .race _ => "check-outside-tx"
   | .kcreate _ => "limit-exceeded"
+  -- `State.Rename` checks the limit for the missing superiors of the new name (model: `step … (.renameParents parents)`)
+  | .rename .. => "rename-parents-above-maximum"
   | _ => if what.startsWith "uidnext" then "uid-above-maximum"
          else if what.startsWith "messages" then "count-above-maximum" else "limit-exceeded"
 
@@ -301,7 +306,7 @@ def kindOf : Op → String
   | .append _ => "append"
   | .copy s lo hi d => (if hi > lo then "copy-multi" else "copy") ++ (if s == d then "-self" else "")
   | .move s lo hi d => (if hi > lo then "move-multi" else "move") ++ (if s == d then "-self" else "")
-  | .create _ => "create" | .kcreate _ => "kcreate" | .batch _ _ => "batch" | .batch2 .. => "batch2" | .race _ => "race" | .flush _ => "flush" | .aux => "aux"
+  | .create _ => "create" | .kcreate _ => "kcreate" | .rename .. => "rename" | .batch _ _ => "batch" | .batch2 .. => "batch2" | .race _ => "race" | .flush _ => "flush" | .aux => "aux"
 
 /-- overlap class of a COPY / MOVE (for the statistics): none / some / all of the set is in the destination already -/
 def overlapOf (w : WorldObs) : Op → String
@@ -326,6 +331,41 @@ def refusedChangedCause (before after : WorldObs) (op : Op) : String :=
      | _ => "refused-copy-lost-destination-copies")
   else "refused-but-changed"
 
+/-- the name a mailbox has after `RENAME old new` (the mailbox itself and its inferiors move) -/
+def renamedName (old new n : String) : String :=
+  if n == old then new
+  else if n.startsWith (old ++ "/") then new ++ "/" ++ "/".intercalate ((n.splitOn "/").drop (old.splitOn "/").length)
+  else n
+
+/-- RENAME of a mailbox other than INBOX, through the model: the `parents` missing superiors of the new name are
+    created iff `step … (.renameParents parents)` accepts; a refusal changes nothing; an accepted RENAME moves the
+    mailbox and its inferiors with their content, UIDs and UIDNEXT, and the new superiors are empty.  RENAME is
+    refused for other reasons (no such mailbox, the new name exists, renaming a mailbox below itself): the model
+    then predicts a refusal as well. -/
+def judgeRename (l : IMAP) (before after : WorldObs) (old new status : String) : String :=
+  let parents := ((superiors new).filter fun s => (find before s).isNone).length
+  let valid := (find before old).isSome && (find before new).isNone && !(superiors new).contains old &&
+    old != recoveryKey && !new.startsWith recoveryKey
+  let w0 : World := { mailboxes := before.length, count := 0, uidNext := 1, passed := [] }
+  let w1 := step l w0 (.renameParents parents)
+  let accepted := valid && w1.mailboxes == w0.mailboxes + parents
+  if old == "INBOX" then
+    (if status == "no" && !sameWorld before after then "violation refused-operation-changed-a-mailbox cause=refused-but-changed op=rename"
+     else "ok trivial-rename-inbox")
+  else if status == "no" then
+    if !sameWorld before after then "violation refused-operation-changed-a-mailbox cause=refused-but-changed op=rename"
+    else if accepted then "violation fitting-operation-refused cause=fitting-refused op=rename"
+    else if valid then s!"ok nontrivial-refused-unchanged-rename-parents{parents}"
+    else "ok nontrivial-refused-unchanged-rename-invalid"
+  else if status == "ok" then
+    if !accepted then "violation accepted-step-the-model-refuses cause=model-mismatch op=rename"
+    else if after.length == before.length + parents &&
+        (before.all fun b => find after (renamedName old new b.name) == some { b with name := renamedName old new b.name }) &&
+        (after.all fun a => (before.any fun b => renamedName old new b.name == a.name) || a.count == 0) then
+      s!"ok nontrivial-accepted-rename-parents{parents}"
+    else "violation accepted-step-differs-from-model cause=model-mismatch op=rename"
+  else s!"violation no-tagged-completion cause=no-completion status={status}"
+
 def judge (l : IMAP) (op : Op) (before after : WorldObs) (status : String) : String :=
   if !(after.all fun a => contentLen a.content == a.count && (parseItems a.content).isSome) then "violation inconsistent-observation cause=harness-observation" else
   -- applying the connector's queued echo of an IMAP command must not change anything
@@ -342,6 +382,7 @@ def judge (l : IMAP) (op : Op) (before after : WorldObs) (status : String) : Str
       | _ => false
     match op with
     | .aux => "ok trivial-aux"
+    | .rename old new => judgeRename l before after old new status
     | _ =>
       match uidsSane before after with
       | some what => s!"violation uids-not-sane {what} cause=uid-assignment op={kindOf op}{overlapOf before op}"
